@@ -28,6 +28,7 @@ import MdModel.Walk.Layout
 import MdModel.Walk.WinWalk
 import MdModel.Walk.LayoutMixed
 import MdModel.Walk.LayoutGen
+import MdModel.Walk.LayoutGenScan
 namespace MdModel.Walk
 open MdModel MdModel.Proto
 
@@ -80,7 +81,8 @@ def parseWins (mods : List Module) (field : String) : Option (List (List Win.Rec
     `chain walk win:<records> <walk fields>`: the walk itself with STACK WIN records present;
     `chain layout fp <base> <s0> <f0> <tail> <gap:ret,..|->`: the generator's x86-64 frame-pointer layout;
     `chain layout fpg <arch> <base> <s0> <f0> <tail> <gap:ret,..|->`: the same generically in the architecture;
-    `chain layout cfi <base> <s0> <tail> <n:saves:ret:fpv,..> <walk fields>`: the canonical STACK CFI layout -/
+    `chain layout cfi <base> <s0> <tail> <n:saves:ret:fpv,..> <walk fields>`: the canonical STACK CFI layout;
+    `chain layout scan <base> <s0> <tail> <junk.junk..:ret,..> <walk fields>`: the scan-only layout (`-`: no junk) -/
 def handleChain (args : List String) : String :=
   match args with
   | "walk" :: win :: rest =>
@@ -158,6 +160,37 @@ def handleChain (args : List String) : String :=
           | [md], [some sf] => if oneModOkB md sf && gcfiSideOne md sf a r.ctx.ip true fs then "1" else "0"
           | _, _ => "-"
         s!"hyp={if hyp then 1 else 0} one={one} sp={pAddr a.ptr b s} stack:{hex m.bytes.toList} exp:{"|".intercalate ((gcfiChain a.ptr b s fp0 fs).map showExp)}"
+      else "bad-op"
+    | _, _, _, _, _ => "bad-op"
+  | "layout" :: "scan" :: base :: s0 :: tail :: frames :: rest =>
+    -- the scan-only generator's layout (`gscanWords` / `gscanChain`, Walk/LayoutGenScan.lean) as a function
+    -- of its parameters; `rest` = the walk fields of the generated case, of which the context, module list
+    -- and symbol records are used; `hyp` = every hypothesis of `walk_layout_scan_generated` /
+    -- `walk_layout_scan_generated32` (MdProofs/C04Gen.lean) evaluated on these parameters
+    let fs : Option (List ScFr) :=
+      if frames = "-" then some []
+      else (pieces frames ",").mapM fun c =>
+        match c.splitOn ":" with
+        | [j, r] => do
+          let r ← optNat r
+          let j ← if j = "-" then some [] else (j.splitOn ".").mapM optNat
+          if j.length ≤ 4096 then some { junk := j, ret := r } else none
+        | _ => none
+    match parseRequestBe rest, optNat base, optNat s0, optNat tail, fs with
+    | some r, some b, some s, some t, some fs =>
+      if b ≤ U64MAX ∧ s ≤ 4096 ∧ t ≤ 4096 ∧ !(r.mem.map (·.be)).getD false then
+        let a := r.arch
+        let ws := gscanWords s t fs
+        let m := wordsMemP a.ptr b ws
+        let env := mkEnv a r.os r.world m
+        let wide := a == .arm64 || a == .arm64old || a == .mips64
+        let hyp :=
+          noCfi r.world && r.ctx.valid.isNone && decide (r.ctx.sp = pAddr a.ptr b s) &&
+          decide (r.ctx.raw a a.fpName = 0) && !(a == .arm && r.os == .ios) &&
+          (if wide then (a != .mips64 || r.ctx.m64) else !r.ctx.m64 && decide (4096 ≤ b) && decide (s ≤ ws.length)) &&
+          decide (0 < ws.length) && decide (b + a.ptr * ws.length ≤ a.regMax) && gscanFramesOk env a true fs
+        let showExp := fun (e : Exp) => s!"{e.ret},{e.sp},{(e.fp.map toString).getD "-"}"
+        s!"hyp={if hyp then 1 else 0} sp={pAddr a.ptr b s} stack:{hex m.bytes.toList} exp:{"|".intercalate ((gscanChain a.ptr b s fs).map showExp)}"
       else "bad-op"
     | _, _, _, _, _ => "bad-op"
   | "pre" :: tech :: exp :: rest =>
